@@ -762,15 +762,13 @@ SIZES = {"B": (1, False), "b": (1, True), "H": (2, False), "h": (2, True),
 
 
 def _parse(fmt):
-    order = "<"
+    order = "@"                       # no prefix: native order, aligned
     if fmt and fmt[0] in "<>!=@":
         order = fmt[0]
         fmt = fmt[1:]
+    aligned = order == "@"
     if order in "=@":
         order = "<" if sys.byteorder == "little" else ">"
-        native = True
-    else:
-        native = False
     if order == "!":
         order = ">"
     items, num = [], ""
@@ -788,6 +786,16 @@ def _parse(fmt):
             items += [(c, 1)] * n
         else:
             raise _struct.error(f"bad char in struct format: {c}")
+    if aligned:
+        out, off = [], 0
+        for c, n in items:
+            w = n if c in "sxp" else SIZES[c][0]
+            if c not in "sxp" and off % w:
+                out.append(("x", w - off % w))
+                off += w - off % w
+            out.append((c, n))
+            off += w
+        items = out
     return order, items
 
 
@@ -1095,6 +1103,18 @@ SHADOW_BUILTINS.update(
     len=sym_len, isinstance=sym_isinstance, max=_mm("max"), min=_mm("min"),
     int=sym_int, bool=sym_bool, bytes=sym_bytes_t, bytearray=sym_bytearray,
     range=sym_range, abs=sym_abs, divmod=sym_divmod)
+
+
+class _MemoryView:
+    """memoryview over a symbolic buffer: the buffer itself"""
+
+    def __new__(cls, obj):
+        if isinstance(obj, (SBytes, SByteArray)):
+            return obj
+        return builtins.memoryview(obj)
+
+
+SHADOW_BUILTINS["memoryview"] = _MemoryView
 
 
 class _LoggingShim:
